@@ -3,7 +3,8 @@ import hashlib
 
 
 class Stub:
-    def __init__(self, swap=False, lo=1.0, hi=100.0, zero_depth=False):
+    def __init__(self, swap=False, lo=1.0, hi=100.0, zero_depth=False, salt=""):
+        self.salt = salt
         self.swap = swap
         self.lo = lo
         self.hi = hi
@@ -11,7 +12,7 @@ class Stub:
         self.calls = []
 
     def size_of(self, text):
-        h = int(hashlib.md5(text.encode()).hexdigest(), 16)
+        h = int(hashlib.md5((self.salt + text).encode()).hexdigest(), 16)
         span = self.hi - self.lo
         w = self.lo + (h % 9973) / 9973.0 * span
         ht = self.lo + ((h >> 40) % 9973) / 9973.0 * span
